@@ -1,0 +1,18 @@
+//go:build verif
+
+package packet
+
+// VerifReceive, when set, is called at the top of (*Writer).receive before the writer's lock
+// is taken; the function it returns (if any) runs after the lock has been released. The
+// verification harness uses it to hold back the goroutines that Reader.Close spawns and to
+// deliver each drop notification as an explicit step. Set it before any writer is used.
+var VerifReceive func(w *Writer, r *Reader, pck *Packet) func()
+
+func verifReceive(w *Writer, r *Reader, pck *Packet) func() {
+	if h := VerifReceive; h != nil {
+		if after := h(w, r, pck); after != nil {
+			return after
+		}
+	}
+	return func() {}
+}
